@@ -589,7 +589,7 @@ def gen_vbnn(ctx, exe, cid, cv, scale, pool, lvl=2):
         # one line per run uses an empty identity and message
         if cnt == 1:
             V(R_=None, i_=b"identity", m_=m + rng.bytes(150))
-            if lvl == 2:
+            if cid == CURVES[0]:
                 V(R_=None, i_=b"", m_=b"")
         for P in alter_pt(rng, cv, mpk, heavy, pool):
             V(K_=P)
